@@ -104,7 +104,23 @@ def eval_extra(c):
     viol = list(geom.pulse_geometry_violations(m))
     nseg = sum(g.n_segments for g in m.geo)
     ngnd = sum(int(a) + int(b) for g in m.geo for a, b in [g.is_ground])
-    N = nseg - len(m.geo) + ngnd + 1          # one 2-end junction
+    # junctions: cluster the non-grounded object ends (exact coincidences in these structures)
+    ends = []
+    for g in m.geo:
+        for e, p in ((0, g.segments[0].p1), (1, g.segments[-1].p2)):
+            if not g.is_ground[e]:
+                ends.append(np.array(p, float))
+    tol = 1e-3 * m.min_seglen
+    used = [False] * len(ends)
+    njun = 0
+    for i in range(len(ends)):
+        if used[i]:
+            continue
+        grp = [j for j in range(i, len(ends)) if not used[j] and np.linalg.norm(ends[j] - ends[i]) < tol]
+        for j in grp:
+            used[j] = True
+        njun += len(grp) - 1
+    N = nseg - len(m.geo) + ngnd + njun
     if len(m.pulses) != N:
         viol.append(('COUNT', 'pulses %d expected %d' % (len(m.pulses), N)))
     seq = [p.idx for g in m.geo for p in g.pulses]
